@@ -2,6 +2,20 @@
 import json, glob, sys, jsonschema
 jsonschema.validate(json.load(open('/verif/MANIFEST.json')), json.load(open('/root/.vp/MANIFEST.schema.json')))
 s = json.load(open('/root/.vp/EVIDENCE.schema.json'))
+claimed = set(open('/verif/claimed.txt').read().split())
+bad = 0
 for f in sorted(glob.glob('/verif/evidence/*.json')):
-    jsonschema.validate(json.load(open(f)), s)
-print("manifest + %d evidence files valid" % len(glob.glob('/verif/evidence/*.json')))
+    pid = f.split('/')[-1][:-5]
+    try:
+        d = json.load(open(f))
+        jsonschema.validate(d, s)
+        if d.get('violations'):
+            raise Exception('evidence records %d violations' % d['violations'])
+    except Exception as e:
+        tag = 'CLAIMED' if pid in claimed else 'unclaimed'
+        print("INVALID %s (%s): %s" % (f, tag, str(e).split('\n')[0]))
+        if pid in claimed: bad += 1
+missing = [p for p in claimed if not glob.glob('/verif/evidence/%s.json' % p)]
+if missing: print("MISSING evidence for claimed:", missing); bad += 1
+print("manifest valid; %d evidence files; %d problems among claimed" % (len(glob.glob('/verif/evidence/*.json')), bad))
+sys.exit(1 if bad else 0)
